@@ -19,7 +19,18 @@ pub const HOSTILE_W: u8 = 3;
 pub enum RAct {
     Match { w: u8 },
     Unmatch { w: u8 },
-    Data { w: u8, sn: i64 },
+    /// the event loop's pre-emptive ACKNACK timer fires
+    PreTick,
+    /// nots: the datagram carries no INFO_TS (the sample then has no source timestamp, whatever earlier datagrams said);
+    /// hx: extra octets in the DATA submessage header (octetsToInlineQos = 16 + hx)
+    Data {
+        w: u8,
+        sn: i64,
+        #[serde(default)]
+        nots: bool,
+        #[serde(default)]
+        hx: u8,
+    },
     /// fragments fs..fs+fc-1 of a sample of `tot` fragments
     DataFrag { w: u8, sn: i64, fs: u32, fc: u16, tot: u32 },
     Heartbeat { w: u8, first: i64, last: i64, count: i32, fin: bool },
@@ -227,13 +238,19 @@ impl Exec {
                 self.rig.unmatch_writer(0, writer_guid(*w));
                 out.push(json!({"ev":"Unmatch","w":w}));
             }
-            RAct::Data { w, sn } => {
-                let subs = [
-                    Sub::InfoTs { ts: Some((ts_of(*w, *sn), 0)) },
-                    Sub::Data { reader: self.reader_eid, writer: writer_eid(*w), sn: *sn, inline_qos: None, payload: Some(plain_payload(*w, *sn)), key_flag: false },
-                ];
+            RAct::PreTick => {
+                // whatever the readers send now is unprompted: judged like any other spontaneous ACKNACK / NACKFRAG
+                let sent = self.rig.preemptive_acknack_tick();
+                let o = outputs_by_writer(&sent, &mut self.captured);
+                self.spont(o, out);
+            }
+            RAct::Data { w, sn, nots, hx } => {
+                let data = Sub::Data { reader: self.reader_eid, writer: writer_eid(*w), sn: *sn, inline_qos: None, payload: Some(plain_payload(*w, *sn)), key_flag: false };
+                let subs = if *nots { vec![data] } else { vec![Sub::InfoTs { ts: Some((ts_of(*w, *sn), 0)) }, data] };
+                wire::DATA_HEADER_EXTRA.with(|x| x.set(*hx));
                 let o = self.inject(*w, &subs);
-                out.push(json!({"ev":"Data","w":w,"sn":sn,"pid":pid_of(*w,*sn),"ts":ts_of(*w,*sn)}));
+                wire::DATA_HEADER_EXTRA.with(|x| x.set(0));
+                out.push(json!({"ev":"Data","w":w,"sn":sn,"pid":pid_of(*w,*sn),"ts": if *nots { -1 } else { ts_of(*w,*sn) as i64 }}));
                 self.spont(o, out);
             }
             RAct::DataFrag { w, sn, fs, fc, tot } => {
@@ -407,6 +424,10 @@ pub fn random_run(rng: &mut StdRng, n_events: usize) -> RunSpec {
     for _ in 0..n_events {
         let w = rng.gen_range(1..=nw);
         let f = front[w as usize];
+        if rng.gen_range(0..25) == 0 {
+            acts.push(RAct::PreTick);
+            continue;
+        }
         let r = rng.gen_range(0..100);
         if r < 40 {
             // data: new (maybe skipping some = loss) or old (duplicate / late)
@@ -419,7 +440,7 @@ pub fn random_run(rng: &mut StdRng, n_events: usize) -> RunSpec {
             front[w as usize] = std::cmp::max(f, sn);
             let tot = *fragmented.entry((w, sn)).or_insert_with(|| if rng.gen_bool(0.25) { rng.gen_range(2..=5) } else { 0 });
             if tot == 0 {
-                acts.push(RAct::Data { w, sn });
+                acts.push(RAct::Data { w, sn, nots: rng.gen_bool(0.15), hx: [0u8, 0, 0, 4, 8][rng.gen_range(0..5)] });
             } else {
                 // some fragments of it, any order, maybe not all
                 let mut fr: Vec<u32> = (1..=tot).collect();
@@ -501,7 +522,7 @@ pub fn hostile_specs(seed: u64, runs: usize) -> Vec<RunSpec> {
                 match rng.gen_range(0..4) {
                     0 | 1 => {
                         sn += if rng.gen_bool(0.2) { 2 } else { 1 };
-                        acts.push(RAct::Data { w: 1, sn });
+                        acts.push(RAct::Data { w: 1, sn, nots: false, hx: 0 });
                     }
                     2 => {
                         hb += 1;
@@ -514,14 +535,14 @@ pub fn hostile_specs(seed: u64, runs: usize) -> Vec<RunSpec> {
         valid(&mut acts, &mut rng, pre);
         // the hostile peer may also have sent something valid-looking before
         if matched && rng.gen_bool(0.5) {
-            acts.push(RAct::Data { w: HOSTILE_W, sn: 1 });
+            acts.push(RAct::Data { w: HOSTILE_W, sn: 1, nots: false, hx: 0 });
             acts.push(RAct::DataFrag { w: HOSTILE_W, sn: 2, fs: 1, fc: 1, tot: 3 });
         }
         acts.push(RAct::Hostile { w: HOSTILE_W, cls: cls.to_string() });
         valid(&mut acts, &mut rng, 6);
         // everything of writer 1 must still arrive
         for s in 1..=sn {
-            acts.push(RAct::Data { w: 1, sn: s });
+            acts.push(RAct::Data { w: 1, sn: s, nots: false, hx: 0 });
         }
         acts.push(RAct::Take { max: 10_000, byinst: false });
         // the third and fourth round over the classes go through the socket and the UDPListener
